@@ -791,8 +791,9 @@ def run_case(spec, inst, cls=None, with_model: bool = True) -> CaseResult:
         prog = compiled_program(cls)
         res.tables, res.prog = T, prog
         fmt_line = encode_fmt(prog, T)
-        alt_line = encode_fmt(prog, T, typed_as_generic=True)
-        res.typed_optional = alt_line != fmt_line
+        # only used to name a failure: the format has an optional attribute variable of the unique-base /
+        # typed flavour (its parser once ignored `is_optional`; repaired, the model makes no difference)
+        res.typed_optional = has_typed_optional(prog)
         e = encode_op(op, T, vals, blocks)
         dl = defs_line(cls, T)
         res.follow = "s" if blocks else "p:}"
@@ -812,7 +813,7 @@ def run_case(spec, inst, cls=None, with_model: bool = True) -> CaseResult:
                 except Unmodelled:
                     res.impl_parse = "unencodable"
         res.lines = [dl + " " + func_types_field(T), fmt_line, op_line(e), "wf " + res.follow, "print",
-                     "roundtrip " + res.follow, alt_line, "wf " + res.follow]
+                     "roundtrip " + res.follow]
         res.modelled = True
     except Unmodelled as e:
         res.modelled = False
@@ -896,7 +897,7 @@ def _kind_of(obj) -> str:
     return "s"
 
 
-def encode_sdir(d, T: Tables, typed_as_generic: bool = False) -> str | None:
+def encode_sdir(d, T: Tables) -> str | None:
     """one compiled directive object → model word; None for whitespace"""
     from xdsl.dialects.builtin import UnitAttr
     from xdsl.irdl import declarative_assembly_format as F
@@ -941,10 +942,10 @@ def encode_sdir(d, T: Tables, typed_as_generic: bool = False) -> str | None:
     if isinstance(d, F.OptionalUnitAttrVariable):
         return f"u:{d.name}:{int(d.is_property)}:{T.attr(d.name, UnitAttr())}"
     if isinstance(d, F.AttributeVariable):
-        honours_optional = type(d) in (F.AttributeVariable, F.SymbolNameAttributeVariable, F.DenseArrayAttributeVariable)
-        opt_parse = d.is_optional and (honours_optional or typed_as_generic)
+        # every flavour (plain, symbol name, dense array, unique base, typed) is parsed optionally
+        # exactly when the variable is optional
         dflt = "-" if d.default_value is None else str(T.attr(d.name, d.default_value))
-        return f"a:{d.name}:{int(d.is_property)}:{int(d.is_optional)}:{int(opt_parse)}:{dflt}"
+        return f"a:{d.name}:{int(d.is_property)}:{int(d.is_optional)}:{dflt}"
     if isinstance(d, F.AttrDictDirective):
         res = ",".join(sorted(d.reserved_attr_names)) or "-"
         exp = ",".join(sorted(d.expected_properties)) or "-"
@@ -952,7 +953,18 @@ def encode_sdir(d, T: Tables, typed_as_generic: bool = False) -> str | None:
     raise Unmodelled(type(d).__name__)
 
 
-def encode_fmt(prog, T: Tables, typed_as_generic: bool = False) -> str:
+def has_typed_optional(prog) -> bool:
+    from xdsl.irdl import declarative_assembly_format as F
+
+    def one(e) -> bool:
+        if isinstance(e, F.OptionalGroupDirective):
+            return any(one(x) for x in (e.then_first, *e.then_elements, *e.else_elements))
+        return isinstance(e, F.UniqueBaseAttributeVariable) and e.is_optional
+
+    return any(one(d) for d in prog.stmts)
+
+
+def encode_fmt(prog, T: Tables) -> str:
     from xdsl.irdl import declarative_assembly_format as F
 
     words = []
@@ -967,12 +979,12 @@ def encode_fmt(prog, T: Tables, typed_as_generic: bool = False) -> str:
                 raise Unmodelled("anchor not among then-elements")
             words.append("(")
             words.append(str(ai))
-            words += [w for e in then_nw if (w := encode_sdir(e, T, typed_as_generic)) is not None]
+            words += [w for e in then_nw if (w := encode_sdir(e, T)) is not None]
             words.append("|")
-            words += [w for e in d.else_elements if (w := encode_sdir(e, T, typed_as_generic)) is not None]
+            words += [w for e in d.else_elements if (w := encode_sdir(e, T)) is not None]
             words.append(")")
         else:
-            w = encode_sdir(d, T, typed_as_generic)
+            w = encode_sdir(d, T)
             if w is not None:
                 words.append(w)
     return "fmt " + " ".join(words)
